@@ -122,6 +122,7 @@ func (fc *FnCtx) evalTargets(x ast.Expr, env *Env) []WTarget {
 				}
 				var ts []WTarget
 				for _, lf := range cellLeaves(s.Field(i).Type()) {
+					fc.regDecl(fp.Loc.Prefix+lf.suffix, len(fp.Loc.Idx), leafSort(lf.kind))
 					ts = append(ts, WTarget{Region: fp.Loc.Prefix + lf.suffix, Idx: fp.Loc.Idx})
 				}
 				return ts
@@ -165,6 +166,7 @@ func (fc *FnCtx) objectTargets(ref Term, T types.Type) []WTarget {
 				continue
 			}
 			for _, lf := range cellLeaves(ft) {
+				fc.regDecl(fp.Loc.Prefix+lf.suffix, len(fp.Loc.Idx), leafSort(lf.kind))
 				ts = append(ts, WTarget{Region: fp.Loc.Prefix + lf.suffix, Idx: fp.Loc.Idx})
 			}
 		}
@@ -189,6 +191,8 @@ func (fc *FnCtx) havoc(st *State, ts []WTarget) {
 	for _, t := range ts {
 		switch {
 		case t.Any:
+			vc.nextEpoch++
+			st.Epoch = vc.nextEpoch
 			var names []string
 			for n := range vc.eng.regions {
 				names = append(names, n)
@@ -197,6 +201,7 @@ func (fc *FnCtx) havoc(st *State, ts []WTarget) {
 			for _, n := range names {
 				nidx, leaf := vc.regionSort(n)
 				st.Heap[n] = vc.sc.fresh(n+"@", arraySort(nidx, leaf))
+				vc.typeInv(n, st.Heap[n], nidx)
 			}
 			for g := range fc.eng.cs.Ghosts {
 				kept := false
@@ -214,32 +219,77 @@ func (fc *FnCtx) havoc(st *State, ts []WTarget) {
 		default:
 			ri, ok := vc.eng.regions[t.Region]
 			if !ok {
-				continue // region never read or written by verified code in this VC
+				// not mentioned so far: element regions are registered now (their shape follows
+				// from the name) so that a later read sees the havocked version, whatever the
+				// order in which functions and specs touch the region
+				if ri, ok = guessRegion(t.Region); !ok {
+					continue
+				}
+				vc.eng.regions[t.Region] = ri
 			}
 			cur := vc.region(st, t.Region, ri.nidx, ri.leaf)
 			switch {
 			case t.Whole:
 				st.Heap[t.Region] = vc.sc.fresh(t.Region+"@", arraySort(ri.nidx, ri.leaf))
+				vc.typeInv(t.Region, st.Heap[t.Region], ri.nidx)
 			case t.ElemBase != "":
 				// the fields of every element object of one backing array
 				nm := vc.sc.fresh(t.Region+"@", arraySort(ri.nidx, ri.leaf))
 				fc.assume(fmt.Sprintf("(forall ((r Int)) (! (=> (or (>= r 0) (not (= (selem_b r) %s))) (= (select %s r) (select %s r))) :pattern ((select %s r))))", t.ElemBase, nm, cur, nm))
 				st.Heap[t.Region] = nm
+				vc.typeInv(t.Region, nm, ri.nidx)
 			case t.Row:
-				vc.setRegion(st, t.Region, ri.nidx, ri.leaf, app("store", cur, t.Idx[0], vc.sc.fresh("hv", arraySort(ri.nidx-1, ri.leaf))))
+				hv := vc.sc.fresh("hv", arraySort(ri.nidx-1, ri.leaf))
+				vc.typeInv(t.Region, hv, ri.nidx-1)
+				vc.setRegion(st, t.Region, ri.nidx, ri.leaf, app("store", cur, t.Idx[0], hv))
 			case t.Lo != "":
 				a := vc.sc.fresh("hv", arraySort(1, ri.leaf))
+				vc.typeInv(t.Region, a, 1)
 				fc.assume(fmt.Sprintf("(forall ((k Int)) (! (=> (not (and (<= %s k) (< k %s))) (= (select %s k) (select (select %s %s) k))) :pattern ((select %s k))))", t.Lo, t.Hi, a, cur, t.Idx[0], a))
 				vc.setRegion(st, t.Region, ri.nidx, ri.leaf, app("store", cur, t.Idx[0], a))
 			default:
 				if ri.nidx == 0 {
 					st.Heap[t.Region] = vc.sc.fresh(t.Region+"@", ri.leaf)
+					vc.typeInv(t.Region, st.Heap[t.Region], 0)
 				} else {
-					vc.setRegion(st, t.Region, ri.nidx, ri.leaf, stor(cur, t.Idx, vc.sc.fresh("hv", ri.leaf)))
+					hv := vc.sc.fresh("hv", ri.leaf)
+					vc.typeInv(t.Region, hv, 0)
+					vc.setRegion(st, t.Region, ri.nidx, ri.leaf, stor(cur, t.Idx, hv))
 				}
 			}
 		}
 	}
+}
+
+// guessRegion derives the shape of an element / cell / box region from its name.
+func guessRegion(name string) (regionInfo, bool) {
+	nidx := 0
+	switch {
+	case strings.HasPrefix(name, "elem<"):
+		nidx = 2
+	case strings.HasPrefix(name, "cell<"), strings.HasPrefix(name, "box<"):
+		nidx = 1
+	default:
+		return regionInfo{}, false
+	}
+	i := strings.Index(name, "<")
+	j := strings.LastIndex(name, ">")
+	if j < i {
+		return regionInfo{}, false
+	}
+	elem, suffix := name[i+1:j], name[j+1:]
+	leaf := "Int"
+	if suffix == "" {
+		switch elem {
+		case "bool":
+			leaf = "Bool"
+		case "string":
+			leaf = "Str"
+		case "float64", "float32":
+			leaf = "Real"
+		}
+	}
+	return regionInfo{nidx, leaf}, true
 }
 
 // frameTargets of the function under verification (evaluated at entry).
